@@ -287,27 +287,31 @@ ErrSelOk(r, pre, preoffs) == Has(r, "t") /\ r.t = "err" /\ Tup(r.data) = Tup(pre
 SelectOk(ev) ==
   LET r == ev.res
       a == ev.a
-      root == D(ev, 1)
       ps == ev.ast
       pre == IF Has(a, "pre") THEN a.pre ELSE <<>>
       preoffs == IF Has(a, "preoffs") THEN a.preoffs ELSE <<>>
-      s == Select(ps, root)
-      ModeOk(rr, mode) ==
+      \* the Selector API is always given the JSONB encoding of the tree; the convenience functions are
+      \* given the representation the script asked for (a text argument denotes its integers unsigned)
+      sApi == Select(ps, ev.d[1])
+      sFn == Select(ps, D(ev, 1))
+      ModeOk(s, rr, mode) ==
         IF ~s.ok THEN ErrSelOk(rr, pre, preoffs)
         ELSE IF IsPredicate(ps) THEN PredSelOk(rr, Len(s.v) > 0, pre, preoffs)
         ELSE SelOk(rr, ModeItems(mode, s.v), pre, preoffs)
+      ExistsOk(s, rr) ==
+        IF IsPredicate(ps) THEN SafeEq(RBool(TRUE), rr)
+        ELSE IF ~s.ok THEN rr.t = "err" ELSE SafeEq(RBool(Len(s.v) > 0), rr)
+      MatchOk(s, rr) ==
+        IF ~IsPredicate(ps) THEN SafeEq(RErr("InvalidJsonPathPredicate"), rr)
+        ELSE IF ~s.ok THEN rr.t = "err" ELSE SafeEq(RBool(Len(s.v) > 0), rr)
   IN IF r.t = "noparse" THEN ~Has(a, "path") /\ Has(a, "mustparse") = FALSE
      ELSE
      /\ r.t = "select"
      /\ (Has(a, "path") => ps = a.path)
-     /\ ModeOk(r.all, "all") /\ ModeOk(r.first, "first") /\ ModeOk(r.array, "array") /\ ModeOk(r.mixed, "mixed")
-     /\ ModeOk(r.f_mixed, "mixed") /\ ModeOk(r.f_first, "first") /\ ModeOk(r.f_array, "array")
-     /\ (IF IsPredicate(ps) THEN SafeEq(RBool(TRUE), r.exists) /\ SafeEq(RBool(TRUE), r.f_exists)
-         ELSE IF ~s.ok THEN r.exists.t = "err" /\ r.f_exists.t = "err"
-         ELSE SafeEq(RBool(Len(s.v) > 0), r.exists) /\ SafeEq(RBool(Len(s.v) > 0), r.f_exists))
-     /\ (IF ~IsPredicate(ps) THEN SafeEq(RErr("InvalidJsonPathPredicate"), r.pmatch) /\ SafeEq(RErr("InvalidJsonPathPredicate"), r.f_match)
-         ELSE IF ~s.ok THEN r.pmatch.t = "err" /\ r.f_match.t = "err"
-         ELSE SafeEq(RBool(Len(s.v) > 0), r.pmatch) /\ SafeEq(RBool(Len(s.v) > 0), r.f_match))
+     /\ ModeOk(sApi, r.all, "all") /\ ModeOk(sApi, r.first, "first") /\ ModeOk(sApi, r.array, "array") /\ ModeOk(sApi, r.mixed, "mixed")
+     /\ ModeOk(sFn, r.f_mixed, "mixed") /\ ModeOk(sFn, r.f_first, "first") /\ ModeOk(sFn, r.f_array, "array")
+     /\ ExistsOk(sApi, r.exists) /\ ExistsOk(sFn, r.f_exists)
+     /\ MatchOk(sApi, r.pmatch) /\ MatchOk(sFn, r.f_match)
 
 ----------------------------------------------------------------------------
 (* the tree-level API of Value (not a listed property; the text paths of the byte-level     *)
